@@ -24,3 +24,4 @@ pub(crate) fn fixed_peer_id(index: u64) -> libp2p::PeerId {
     libp2p::PeerId::from_multihash(mh).expect("sha2-256 multihash is a valid peer id")
 }
 pub mod wire;
+pub mod grpc;
